@@ -391,6 +391,7 @@ func rulesC04(w *World, r *Report) {
 	}
 	r.floor("C04.R2 not-found returns of the registrar", nR, 1)
 	w.ruleRefKeyPins(r, "C04.R2 a miss inserts and takes the next ordinal")
+	w.ruleRefKeyIdentity(r, "C04.R6 the ref key identifies the container")
 
 	// R3 decoder: container readers
 	rd := w.fn("(*Decoder).ReadData")
